@@ -159,6 +159,8 @@ func c07(tier string) []*explore.Scenario {
 	for _, kind := range []string{"Bidi", "SStream", "CStream", "Unary"} {
 		out = append(out, foreignContextCancel("C07", kind, 2))
 	}
+	// finer granularity (a scheduling point after every Unlock as well) on the small core scenarios
+	out = append(out, fineGrained(pickScenarios(out, "cancel/pingpong/at=2/cap=64/others=0/ctxrace=false/deadline=false", "unread/m=2/read=1/other=false")[:2]...)...)
 	return out
 }
 
